@@ -1,4 +1,5 @@
 import Ebv.Model.Bytes
+import Ebv.Generated.Consts
 /-! Model of the payload encoding and response decoding of `EtherCat.roundtrip`
 (ebpfcat/ethercat.py) over its `*args` list of format strings and values and its
 `data=` argument.  Format strings are lists of items `count code` over the codes
@@ -164,5 +165,44 @@ def decode (args : List Arg) (data : RawData) (ret : List UInt8) : Option Result
     else
       let k := pyIndex ret.length ((ret.length : Int) - rawLen data)     -- `split = len(ret) - data`
       (unpackAll (fullFmt args) (ret.take k)).map fun vs => .tupleRaw vs (ret.drop k)
+
+/-! ### the wire: the queued datagram travels through `sendloop` and `Packet.append`
+
+`roundtrip` only puts the payload into the send queue; whether it reaches the bus is decided by
+`Packet.append` (size check against `Packet.MAXSIZE`) inside `sendloop`: a datagram that does not
+even fit into an empty packet gets `OverflowError`, every other one is shipped in this or the
+next packet and its own bytes of the response come back (C12). -/
+
+open Ebv.Consts in
+/-- `Packet.append` on a packet of current size `size` for `len` data bytes: the new size, or
+`none` for `OverflowError` (`newsize > MAXSIZE`) -/
+def appendSize (size len : Nat) : Option Nat :=
+  let newsize := size + len + DATAGRAM_HEADER + DATAGRAM_TAIL
+  if newsize > MAXSIZE then none else some newsize
+
+/-- does a datagram with `len` data bytes fit into an empty packet (`Packet()` starts at `PACKET_HEADER`)? -/
+def sendable (len : Nat) : Bool := (appendSize Ebv.Consts.PACKET_HEADER len).isSome
+
+/-- the largest payload one frame can carry -/
+def maxPayload : Nat :=
+  Ebv.Consts.MAXSIZE - (Ebv.Consts.PACKET_HEADER + Ebv.Consts.DATAGRAM_HEADER + Ebv.Consts.DATAGRAM_TAIL)
+
+inductive Wire where
+  | structError                                        -- `pack` refused the values, nothing queued
+  | overflow                                           -- queued, but no frame can carry it: OverflowError
+  | sent (out : List UInt8) (res : Option Result)      -- on the wire once; result (`none` = struct.error from unpack)
+deriving Repr, DecidableEq
+
+/-- one `roundtrip` call through queue, send loop and bus; `bus` maps the datagram's data on the
+wire to the data of the response (working counter non-zero) -/
+def wire (args : List Arg) (data : RawData) (bus : List UInt8 → List UInt8) : Wire :=
+  match encode args data with
+  | none => .structError
+  | some out => if sendable out.length then .sent out (decode args data (bus out)) else .overflow
+
+/-- several callers at once (`gather`): every request is decided by its own arguments and its own
+response bytes only (that the send loop keeps them apart is C12) -/
+def wireAll (reqs : List (List Arg × RawData × (List UInt8 → List UInt8))) : List Wire :=
+  reqs.map fun r => wire r.1 r.2.1 r.2.2
 
 end Ebv.Roundtrip
